@@ -704,6 +704,7 @@ TLAPS_MODULES = {
     "scan": ("MapProofAlg.tla",),
     "disj": ("MapProofDisj.tla",),
     "bulk": ("MapProofId.tla", "MapProofBulk.tla"),
+    "adv": ("MapProofAdv.tla",),
 }
 
 
@@ -835,6 +836,8 @@ def run_check(pid, tier, seed):
         summary["tlaps_inductive_invariant"] = tlaps_proof()
     if pid == "C16":
         summary["tlaps_inductive_invariant"] = tlaps_proof("bulk")
+    if pid == "C17":
+        summary["tlaps_inductive_invariant"] = tlaps_proof("adv")
     if pid == "C08":
         summary["tlaps_inductive_invariant"] = tlaps_proof("alg")
     if pid == "C14":
